@@ -472,6 +472,12 @@ def extract_name_grammar(model: Model) -> dict:
     for n in ast.walk(nfi.node):
         if isinstance(n, ast.BinOp) and isinstance(n.op, ast.Mod) and isinstance(n.left, ast.Constant):
             fmt = n.left.value
+        if isinstance(n, ast.JoinedStr) and len(n.values) == 1 and isinstance(n.values[0], ast.FormattedValue) and n.values[0].format_spec is not None \
+                and isinstance(n.values[0].format_spec, ast.JoinedStr) and len(n.values[0].format_spec.values) == 1 \
+                and isinstance(n.values[0].format_spec.values[0], ast.Constant) and n.values[0].conversion == -1:
+            fmt = "%" + str(n.values[0].format_spec.values[0].value)  # f"{cp:x}" is "%x" % cp
+        if isinstance(n, ast.Call) and isinstance(n.func, ast.Name) and n.func.id == "format" and len(n.args) == 2 and isinstance(n.args[1], ast.Constant):
+            fmt = "%" + str(n.args[1].value)  # format(cp, "x")
         if isinstance(n, ast.If):
             letter_rule = norm(n.test)
     maxlen = model.mod("glyph").const("_MAX_NAME_LEN")
